@@ -474,7 +474,40 @@ def check_base_untouched(c, st):
     return None
 
 
+def check_pct(c, st):
+    uu = common.load('urlutils')
+    base, ref = c['base'], c['ref']
+    st.monitor_evals += 1
+    try:
+        want_text = rfc_resolve(base, ref)
+        want = uu.URL(want_text)
+        got = uu.URL(base).navigate(ref)
+        if got.to_text(full_quote=True) != want.to_text(full_quote=True) or tuple(got.path_parts) != tuple(want.path_parts):
+            return ('navigate:percent-sign-segments', 'URL(%r).navigate(%r) -> %r (segments %r), RFC 3986 5.2 gives %r (segments %r)'
+                    % (base, ref, got.to_text(full_quote=True), tuple(got.path_parts), want.to_text(full_quote=True), tuple(want.path_parts)))
+        for _ in range(2):
+            before = (got.to_text(full_quote=True), tuple(got.path_parts))
+            got.normalize()
+            if (got.to_text(full_quote=True), tuple(got.path_parts)) != before:
+                return ('normalize:not-idempotent:percent-sign-segments', 'normalize() on the result of URL(%r).navigate(%r) turns %r into %r'
+                        % (base, ref, before, (got.to_text(full_quote=True), tuple(got.path_parts))))
+        n = uu.URL(want_text)
+        n.normalize()
+        n2 = uu.URL(n.to_text(full_quote=True))
+        n2.normalize()
+        if tuple(n2.path_parts) != tuple(n.path_parts):
+            return ('normalize:not-idempotent:percent-sign-segments', 'normalize() of %r gives segments %r, normalizing its fully quoted '
+                    'text again %r' % (want_text, tuple(n.path_parts), tuple(n2.path_parts)))
+    except Exception as e:
+        return ('navigate-raised:%s:percent-sign-segments' % type(e).__name__, 'URL(%r).navigate(%r) raised %r' % (base, ref, e))
+    st.count('nav:percent-sign-segments')
+    st.see(('pct', base, ref))
+    return None
+
+
 def check(c, st):
+    if c['kind'] == 'pct':
+        return check_pct(c, st)
     if c['kind'] == 'untouched':
         return check_base_untouched(c, st)
     return check_norm(c, st) if c['kind'] == 'norm' else check_nav(c, st)
@@ -495,6 +528,9 @@ BASES = ['http://host', 'http://host/', 'http://host/a', 'http://host/a/', 'http
 SEGS = ['.', '..', '', 'a', 'b']
 # segments that contain a quoted slash: one segment, whatever the characters in it look like
 QSEGS = ['a%2Fb', 'b%2F..', '..%2Fa', 'a%2F', '%2F']
+# a literal percent sign followed by two hex digits: data, not an escape to be decoded once more (compared in fully
+# quoted form: the minimally quoted text does not write a literal '%' back as %25 - see C06)
+PCT_SEGS = ['%2541', '%252e%252e', '%252E', 'x%2525y', '%25252e%25252e', '%252e', '%2520', '%25', 'a', '..', '.', '']
 
 
 def gen_ref(r, maxseg=8):
@@ -525,6 +561,13 @@ def gen_ref(r, maxseg=8):
 
 
 def gen(r):
+    if r.random() < 0.03:
+        segs = [r.choice(PCT_SEGS) for _ in range(r.randint(1, 5))]
+        path = r.choice(['', '/']) + '/'.join(segs)
+        if path.startswith('//'):
+            path = '/' + path.lstrip('/')       # (a reference beginning with '//' would carry an authority)
+        return {'kind': 'pct', 'base': r.choice(['http://host/a/b/', 'http://host/a/%2541/c', 'http://host', 'http://host/x%2525y/z?q=%2541']),
+                'ref': path + r.choice(['', '?k=%2541', '#%2541'])}
     if r.random() < 0.03:
         return {'kind': 'untouched', 'base': 'http://host/p/q?' + r.choice(MESSY_QUERIES) + r.choice(['', '#fr']),
                 'refs': [r.choice(['', '#f', 'x', '?n=1', '../y', '#', '.']) for _ in range(r.randint(1, 3))],
